@@ -286,8 +286,10 @@ theorem torn_flush (C : Crypto) (hC : HashWF C) (c : Core) (d : Disk) (hf : Head
           rw [List.take_length] at hd3
           obtain ⟨e1, e2, e3, e4⟩ := apply_write_oplog { d with bitfield := writePages c.bitfield d.bitfield c.bitfield.dirty, tree := writeSlots d.tree (flushList c.tree) } off (bs.take t)
           rw [e3] at hcrc'
-          have hop : (Oplog.flush c.oplog c.header false).2.head? = some (SOp.write .oplog off bs) := by rw [hO, hOdef]; rfl
-          have hinv := opinv_torn_header c.oplog d.oplog hf es c.header t hp.oplog (headerOK_of_shape _ hp.shape) off bs hop hcrc'
+          have hop : (Oplog.insertHeader c.header 0 c.oplog.bits false).2.head? = some (SOp.write .oplog off bs) := by
+            have : (Oplog.insertHeader c.header 0 c.oplog.bits false).2 = O := by rw [← hO]; simp [Oplog.flush]
+            rw [this, hOdef]; rfl
+          have hinv := opinv_torn_header c.oplog d.oplog hf es c.header false t hp.oplog (headerOK_of_shape _ hp.shape) off bs hop hcrc'
           exact ⟨hf, a0, es, durable_oplog C _ _ hf a0 es a hd3.toDurable0 e1 e2 e4 (by rw [e3]; exact opimage_of_inv c.oplog _ hf es hinv)⟩
         · -- the truncate, or beyond the journal: no write there
           apply hplain
@@ -302,6 +304,28 @@ theorem torn_flush (C : Crypto) (hC : HashWF C) (c : Core) (d : Disk) (hf : Head
   · -- no flush: nothing to tear
     simp only [hcond, ite_false] at hplain ⊢
     exact hplain (fun st o b hh => by simp at hh)
+
+/-- all dirty pages and all unflushed nodes written, the oplog untouched: durable for the same ghosts -/
+theorem durable_sides (C : Crypto) (c : Core) (d : Disk) (hf : Header) (a0 a : Abs) (es : List Entry)
+    (hrep : Rep C c d a) (hp : Persist C c d hf a0 es a) :
+    Durable C (d.applyAll (c.bitfield.flush.2 ++ c.tree.flush.2)) hf a0 es a := by
+  have hdur := persist_durable C c d hf a0 es a hrep hp
+  have hj1 := Journal.bitfieldFlush_store c.bitfield
+  rw [Journal.applyAll_append]
+  have hP : c.bitfield.flush.2 = c.bitfield.dirty.map fun p => SOp.write .bitfield (p * Spec.pageBytes) (c.bitfield.pageBytes p) := rfl
+  have ht1 : (d.applyAll c.bitfield.flush.2).tree = d.tree := tree_of_applyAll _ _ (fun op hop => by rw [hj1 op hop]; decide)
+  have hd1 : (d.applyAll c.bitfield.flush.2).data = d.data := data_of_applyAll _ _ (fun op hop => by rw [hj1 op hop]; decide)
+  have ho1 : (d.applyAll c.bitfield.flush.2).oplog = d.oplog := by
+    have := Journal.applyAll_other d c.bitfield.flush.2 .oplog (fun op hop => by rw [hj1 op hop]; decide)
+    simpa [Disk.get] using this
+  have hb1 : (d.applyAll c.bitfield.flush.2).bitfield = writePages c.bitfield d.bitfield c.bitfield.dirty := by
+    rw [hP]; exact applyAll_bitfield_writes c.bitfield d c.bitfield.dirty
+  have hdP := durable_pages C d (d.applyAll c.bitfield.flush.2) hf a0 es a c.bitfield c.bitfield.dirty hdur hrep.bits ht1 hb1 ho1 hd1
+  rw [flush_journal, applyAll_tree_writes]
+  have hN : NodesOK C a.blocks c.tree (d.applyAll c.bitfield.flush.2).tree := by rw [ht1]; exact hrep.nodes
+  have := durable_slots C (d.applyAll c.bitfield.flush.2) { (d.applyAll c.bitfield.flush.2) with tree := writeSlots (d.applyAll c.bitfield.flush.2).tree ((flushList c.tree).take (flushList c.tree).length) } hf a0 es a c.tree _ hdP hrep.mapwf hN rfl rfl rfl rfl
+  rw [List.take_length] at this
+  exact this
 
 /-- an oplog write inside a flush is its header write: it starts inside the two header slots -/
 theorem maybeFlush_oplog_off (c : Core) (m off : Nat) (bs : Bytes) (h : c.maybeFlush.2[m]? = some (.write .oplog off bs)) :
@@ -337,6 +361,169 @@ theorem data_behind (C : Crypto) (c : Core) (d : Disk) (a : Abs) (hrep : Rep C c
   simp only [this, ite_false]
   exact ⟨by omega, o2⟩
 
+/-- `make_read_only` with one of its writes torn -/
+theorem torn_ro (C : Crypto) (hC : HashWF C) (c : Core) (d : Disk) (hf : Header) (a0 a : Abs) (es : List Entry)
+    (hrep : Rep C c d a) (hp : Persist C c d hf a0 es a) (hw : a.writable = true) (k t : Nat)
+    (hcrc : ∀ off bs, c.makeReadOnly.journal[k]? = some (.write .oplog off bs) →
+      validateLeader (((tornApply d c.makeReadOnly.journal k t).oplog.toList.drop off).take Spec.headerSize) = none) :
+    (∃ hf' a0' es', Durable0 C (tornApply d c.makeReadOnly.journal k t) hf' a0' es' a)
+      ∨ (∃ hf' a0' es', Durable0 C (tornApply d c.makeReadOnly.journal k t) hf' a0' es' { a with writable := false }) := by
+  -- where the journal has no write at `k`, this is a plain crash
+  have hplain : (∀ st off bs, c.makeReadOnly.journal[k]? ≠ some (.write st off bs)) →
+      (∃ hf' a0' es', Durable0 C (tornApply d c.makeReadOnly.journal k t) hf' a0' es' a)
+        ∨ (∃ hf' a0' es', Durable0 C (tornApply d c.makeReadOnly.journal k t) hf' a0' es' { a with writable := false }) := by
+    intro hnw
+    rw [tornApply_notWrite _ _ _ _ hnw]
+    rcases crash_ro C hC c d hf a0 a es hrep hp hw k with ⟨x, y, z, hd⟩ | ⟨x, y, z, hd⟩
+    · exact Or.inl ⟨x, y, z, hd.toDurable0⟩
+    · exact Or.inr ⟨x, y, z, hd.toDurable0⟩
+  have hsome : c.secret.isSome = true := by rw [hrep.writer]; exact hw
+  have hrep1 := rep_drop_secret C c d a hrep
+  generalize hc1 : ({ c with secret := none, header := { c.header with secret := none } } : Core) = c1 at hrep1
+  have hj : c.makeReadOnly.journal = (c1.flushAll true).2 := by simp only [Core.makeReadOnly, hsome, ite_true, hc1]
+  have c1b : c1.bitfield = c.bitfield := by rw [← hc1]
+  have c1t : c1.tree = c.tree := by rw [← hc1]
+  have c1o : c1.oplog = c.oplog := by rw [← hc1]
+  have c1h : c1.header = { c.header with secret := none } := by rw [← hc1]
+  have c1s : c1.header.secret = c1.secret := by rw [← hc1]
+  have hokh : HeaderOK c1.header := headerOK_of_shape _ (by rw [c1h]; exact hdrShape_nosecret _ hp.shape)
+  -- the complete call
+  have hPf := flushAll_persist C hC c1 d hf _ es true hrep1 (by rw [c1o]; exact hp.oplog) hp.fileSize (by rw [c1b]; exact hp.dirty)
+    (by rw [c1h]; exact hdrShape_nosecret _ hp.shape) (by rw [c1h]; exact hp.hdrLen) (by rw [c1h]; exact hp.hdrSig) c1s
+    (by rw [c1t]; exact hp.forkU)
+  obtain ⟨k1, k2, k3, k4, k5, k6, k7⟩ := flushAll_keeps C hC a.blocks c1 d true (by rw [c1t]; exact hrep.nodes) (by rw [c1t]; exact hrep.mapwf)
+  have hRf : Rep C (c1.flushAll true).1 (d.applyAll (c1.flushAll true).2) { a with writable := false } := {
+    writer := by rw [k6]; exact hrep1.writer
+    tree := by show RootsOK C a.blocks _; rw [k1]; exact hrep1.tree
+    nodes := k2
+    mapwf := k3
+    bits := by intro i; rw [k4]; exact hrep1.bits i
+    heldLt := hrep.heldLt
+    contig := by rw [k5]; exact ⟨fun i hi => by rw [k4]; exact hrep1.contig.1 i hi, by rw [k4]; exact hrep1.contig.2⟩
+    data := by rw [k7]; exact hrep.data
+    small := hrep.small }
+  have hDf := persist_durable C _ _ _ _ _ _ hRf hPf
+  have hDs := durable_sides C c d hf a0 a es hrep hp
+  rw [hj] at hcrc hplain ⊢
+  simp only [Core.flushAll] at hDf hcrc hplain ⊢
+  rw [c1b, c1t, c1o] at hDf hcrc hplain ⊢
+  have hj1 := Journal.bitfieldFlush_store c.bitfield
+  have hj2 := Journal.treeFlush_store c.tree
+  generalize hP : c.bitfield.flush.2 = P at hj1 hDf hDs hcrc hplain
+  generalize hT : c.tree.flush.2 = T at hj2 hDf hDs hcrc hplain
+  have hO3 : (Oplog.flush c.oplog c1.header true).2
+      = (Oplog.insertHeader c1.header 0 c.oplog.bits true).2 ++ ((Oplog.insertHeader c1.header 0 (Oplog.insertHeader c1.header 0 c.oplog.bits true).1 true).2.take 1) := by
+    simp [Oplog.flush]
+  have hI : ∃ off bs tr, (Oplog.insertHeader c1.header 0 c.oplog.bits true).2 = [SOp.write .oplog off bs, tr] ∧ (∀ st o b, tr ≠ SOp.write st o b) := by
+    simp only [Oplog.insertHeader]; exact ⟨_, _, _, rfl, fun st o b hh => by cases hh⟩
+  have hI2 : ∃ off2 bs2, (Oplog.insertHeader c1.header 0 (Oplog.insertHeader c1.header 0 c.oplog.bits true).1 true).2.head? = some (SOp.write .oplog off2 bs2)
+      ∧ ((Oplog.insertHeader c1.header 0 (Oplog.insertHeader c1.header 0 c.oplog.bits true).1 true).2.take 1) = [SOp.write .oplog off2 bs2] := by
+    simp only [Oplog.insertHeader]; exact ⟨_, _, rfl, rfl⟩
+  obtain ⟨off, bs, tr, hIe, htr⟩ := hI
+  obtain ⟨off2, bs2, hI2h, hI2e⟩ := hI2
+  have hOs : ∀ op ∈ (Oplog.flush c.oplog c1.header true).2, op.store = .oplog := Journal.oplogFlush_store c.oplog c1.header true
+  generalize hO : (Oplog.flush c.oplog c1.header true).2 = O at hDf hO3 hOs hcrc hplain
+  have hOe : O = [SOp.write .oplog off bs, tr, SOp.write .oplog off2 bs2] := by rw [hO3, hIe, hI2e]; rfl
+  have hside : ∀ (m : Nat) (st : Store), st ≠ Store.oplog → ((d.applyAll (P ++ T)).applyAll (O.take m)).get st = (d.applyAll (P ++ T)).get st := by
+    intro m st hst
+    exact Journal.applyAll_other _ (O.take m) st (fun op hop => by rw [hOs op (List.mem_of_mem_take hop)]; exact fun e => hst e.symm)
+  have hsideF : ∀ (st : Store), st ≠ Store.oplog → (d.applyAll (P ++ T ++ O)).get st = (d.applyAll (P ++ T)).get st := by
+    intro st hst
+    rw [Journal.applyAll_append d (P ++ T) O]
+    exact Journal.applyAll_other _ O st (fun op hop => by rw [hOs op hop]; exact fun e => hst e.symm)
+  have hopl0 : (d.applyAll (P ++ T)).oplog = d.oplog := by
+    have h2 := Journal.applyAll_other d (P ++ T) .oplog (fun op hop => by
+      rcases List.mem_append.mp hop with h | h
+      · rw [hj1 op h]; decide
+      · rw [hj2 op h]; decide)
+    simpa [Disk.get] using h2
+  by_cases hk : k < (P ++ T).length
+  · -- a page or node write torn: the same stores as a flush of the writable core with that write torn
+    left
+    have hcc : Rep C { c with skipFlush := 0 } d a := ⟨hrep.writer, hrep.tree, hrep.nodes, hrep.mapwf, hrep.bits, hrep.heldLt, hrep.contig, hrep.data, hrep.small⟩
+    have hpc : Persist C { c with skipFlush := 0 } d hf a0 es a := { hp with }
+    have hflush : ({ c with skipFlush := 0 } : Core).maybeFlush.2 = P ++ T ++ (Oplog.flush c.oplog c.header false).2 := by
+      rw [maybeFlush_eq]; simp only [true_or, ite_true, Core.flushAll, hP, hT]
+    have := torn_flush C hC { c with skipFlush := 0 } d hf a0 a es hcc hpc k t (by
+      intro off' bs' hget
+      exfalso
+      rw [hflush, List.getElem?_append_left hk] at hget
+      have hmem := List.mem_of_getElem? hget
+      rcases List.mem_append.mp hmem with h | h
+      · have := hj1 _ h; simp [SOp.store] at this
+      · have := hj2 _ h; simp [SOp.store] at this)
+    rw [hflush, tornApply_left _ _ _ _ _ hk] at this
+    rw [tornApply_left _ _ _ _ _ hk]
+    exact this
+  · by_cases hk0 : k = (P ++ T).length
+    · -- the first header write torn: the old header is still the newest
+      left
+      have hget : (P ++ T ++ O)[k]? = some (SOp.write .oplog off bs) := by
+        rw [List.getElem?_append_right (by omega), hOe]
+        have : k - (P ++ T).length = 0 := by omega
+        rw [this]; rfl
+      have hcrc' := hcrc off bs hget
+      rw [tornApply_right _ _ _ _ _ (by omega)] at hcrc' ⊢
+      have hz : k - (P ++ T).length = 0 := by omega
+      rw [hz] at hcrc' ⊢
+      have hO0 : O[0]? = some (SOp.write .oplog off bs) := by rw [hOe]; rfl
+      unfold tornApply at hcrc' ⊢
+      simp only [hO0, List.take_zero, applyAll_nil] at hcrc' ⊢
+      obtain ⟨e1, e2, e3, e4⟩ := apply_write_oplog (d.applyAll (P ++ T)) off (bs.take t)
+      rw [e3, hopl0] at hcrc'
+      have hop : (Oplog.insertHeader c1.header 0 c.oplog.bits true).2.head? = some (SOp.write .oplog off bs) := by rw [hIe]; rfl
+      have hinv := opinv_torn_header c.oplog d.oplog hf es c1.header true t hp.oplog hokh off bs hop hcrc'
+      exact ⟨hf, a0, es, durable_oplog C _ _ hf a0 es a hDs.toDurable0 e1 e2 e4 (by rw [e3, hopl0]; exact opimage_of_inv c.oplog _ hf es hinv)⟩
+    · by_cases hk2 : k = (P ++ T).length + 2
+      · -- the second header write torn: the new header is in the other slot
+        right
+        have hget : (P ++ T ++ O)[k]? = some (SOp.write .oplog off2 bs2) := by
+          rw [List.getElem?_append_right (by omega), hOe]
+          have : k - (P ++ T).length = 2 := by omega
+          rw [this]; rfl
+        have hcrc' := hcrc off2 bs2 hget
+        rw [tornApply_right _ _ _ _ _ (by omega)] at hcrc' ⊢
+        have hz : k - (P ++ T).length = 2 := by omega
+        rw [hz] at hcrc' ⊢
+        have hO2 : O[2]? = some (SOp.write .oplog off2 bs2) := by rw [hOe]; rfl
+        unfold tornApply at hcrc' ⊢
+        simp only [hO2] at hcrc' ⊢
+        -- the stores after header write and truncate
+        have hst1 := opinv_insert c.oplog d.oplog hf es c1.header true hp.oplog hokh
+        have hO2e : O.take 2 = (Oplog.insertHeader c1.header 0 c.oplog.bits true).2 := by rw [hOe, hIe]; rfl
+        have hopl2 : ((d.applyAll (P ++ T)).applyAll (O.take 2)).oplog = (Oplog.insertHeader c1.header 0 c.oplog.bits true).2.foldl (fun g op => op.onFile g) d.oplog := by
+          have h1 := applyAll_last_only (d.applyAll (P ++ T)) [] (O.take 2) .oplog (fun op hop => by cases hop)
+            (fun op hop => hOs op (List.mem_of_mem_take hop))
+          simp only [List.nil_append, Disk.get] at h1
+          rw [h1, hopl0, hO2e]
+        obtain ⟨e1, e2, e3, e4⟩ := apply_write_oplog ((d.applyAll (P ++ T)).applyAll (O.take 2)) off2 (bs2.take t)
+        rw [e3, hopl2] at hcrc'
+        have hinv := opinv_torn_header _ _ c1.header [] c1.header true t hst1 hokh off2 bs2 hI2h hcrc'
+        refine ⟨c1.header, { a with writable := false }, [], ?_⟩
+        apply durable_oplog C _ _ c1.header _ [] _ hDf.toDurable0
+        · rw [e1]
+          have h1 := hside 2 .tree (by decide); have h2 := hsideF .tree (by decide)
+          simp only [Disk.get] at h1 h2; rw [h1, h2]
+        · rw [e2]
+          have h1 := hside 2 .bitfield (by decide); have h2 := hsideF .bitfield (by decide)
+          simp only [Disk.get] at h1 h2; rw [h1, h2]
+        · rw [e4]
+          have h1 := hside 2 .data (by decide); have h2 := hsideF .data (by decide)
+          simp only [Disk.get] at h1 h2; rw [h1, h2]
+        · rw [e3, hopl2]; exact opimage_of_inv _ _ _ _ hinv
+      · -- the truncate, or beyond the journal: no write there
+        apply hplain
+        intro st o b hget
+        rw [List.getElem?_append_right (by omega), hOe] at hget
+        obtain ⟨m, hm⟩ : ∃ m, k - (P ++ T).length = m + 1 := ⟨k - (P ++ T).length - 1, by omega⟩
+        rw [hm] at hget
+        cases m with
+        | zero => simp at hget; exact htr st o b hget
+        | succ m =>
+          cases m with
+          | zero => exfalso; omega
+          | succ m => simp at hget
+
 /-- **C07 on the model, one call.**  Whatever prefix of the call's storage operations reached the stores, with
     the next write torn after any number of bytes: the stores are durable for the log before the call or for
     the log after it.  `hcrc`: if the torn write is a header write, the half-written slot fails the checksum. -/
@@ -357,6 +544,31 @@ theorem torn_step (C : Crypto) (hC : HashWF C) (hS : SignWF C) (hTw : TreeWF C) 
   cases op with
   | has i => exact Or.inl (hnone rfl)
   | info => exact Or.inl (hnone rfl)
+  | makeReadOnly =>
+    by_cases hw : a.writable = true
+    · have habs : (a.step .makeReadOnly).1 = { a with writable := false } := by simp [Abs.step, hw]
+      rw [habs]
+      exact torn_ro C hC c d hf a0 a es hrep hp hw k t (fun off bs hget => by
+        have hoff : off < Spec.entriesOffset := by
+          have hsome : c.secret.isSome = true := by rw [hrep.writer]; exact hw
+          have hmem := List.mem_of_getElem? hget
+          simp only [Core.makeReadOnly, hsome, ite_true, Core.flushAll] at hmem
+          rcases List.mem_append.mp hmem with h1 | h3
+          · rcases List.mem_append.mp h1 with h1 | h2
+            · have := Journal.bitfieldFlush_store _ _ h1; simp [SOp.store] at this
+            · have := Journal.treeFlush_store _ _ h2; simp [SOp.store] at this
+          · simp only [Oplog.flush, ite_true, Oplog.insertHeader, List.take_succ_cons, List.take_zero, List.cons_append, List.nil_append,
+              List.mem_cons, SOp.write.injEq, true_and, List.not_mem_nil, or_false, reduceCtorEq, false_or] at h3
+            have hb : ∀ b : Bool, (if b = true then Spec.headerSize else 0) < Spec.entriesOffset := by
+              intro b; cases b <;> decide
+            rcases h3 with ⟨h4, _⟩ | ⟨h4, _⟩
+            · rw [h4]; exact hb _
+            · rw [h4]; exact hb _
+        exact hcrc off bs hget hoff)
+    · have hwf : a.writable = false := by simpa using hw
+      have hnone' : c.secret.isSome = false := by rw [hrep.writer]; exact hwf
+      have hj : c.makeReadOnly.journal = [] := by simp [Core.makeReadOnly, hnone']
+      exact Or.inl (hnone hj)
   | get i =>
     have hj : (c.getBlock d i).journal = [] := by
       unfold Core.getBlock
@@ -369,12 +581,22 @@ theorem torn_step (C : Crypto) (hC : HashWF C) (hS : SignWF C) (hTw : TreeWF C) 
           · split <;> rfl
     exact Or.inl (hnone hj)
   | append batch =>
+    by_cases hw : a.writable = true
+    swap
+    · have hwf : a.writable = false := by simpa using hw
+      have hsec : c.secret = none := by
+        have := hrep.writer; rw [hwf] at this
+        cases hs : c.secret with
+        | none => rfl
+        | some x => rw [hs] at this; simp at this
+      have hj : (c.appendBatch C batch).journal = [] := by simp [Core.appendBatch, hsec]
+      exact Or.inl (hnone hj)
     by_cases hemp : batch.isEmpty = true
-    · obtain ⟨seed, hseed⟩ : ∃ seed, c.secret = some seed := Option.isSome_iff_exists.mp hrep.writer
+    · obtain ⟨seed, hseed⟩ : ∃ seed, c.secret = some seed := Option.isSome_iff_exists.mp (by rw [hrep.writer]; exact hw)
       have hj : (c.appendBatch C batch).journal = [] := by simp [Core.appendBatch, hseed, hemp]
       exact Or.inl (hnone hj)
     · have hne : batch ≠ [] := by intro e; apply hemp; simp [e]
-      obtain ⟨c1, entry, ow, how, hentOK, hjournal, hrep1, hp1⟩ := append_mid C hC hS hTw c d hf a0 a es hrep hp batch hne hv hl
+      obtain ⟨c1, entry, ow, how, hentOK, hjournal, hrep1, hp1⟩ := append_mid C hC hS hTw c d hf a0 a es hrep hp batch hne hv hl hw
       have hjc : journalC C (c, d) (.append batch) = [SOp.write .data (totalBytes a.blocks) batch.flatten, ow] ++ c1.maybeFlush.2 := hjournal
       unfold tornDisk at hcrc ⊢
       rw [hjc] at hcrc ⊢
